@@ -177,4 +177,80 @@ ReadAX(ax) ==
                   [id |-> AXName(ax.bundles[i].id, sc),
                    recs |-> [j \in 1..Len(ax.bundles[i].recs) |-> AXRec(ax.bundles[i].recs[j], sc)]]]]
 NoObs == [recs |-> <<>>, bundles |-> <<>>]
+(***************************************************************************)
+(* The PROV-XML READER of the library (ProvXMLSerializer.deserialize_subtree, *)
+(* _extract_attributes, xml_qname_to_QualifiedName), transcribed like the   *)
+(* PROV-JSON one: the calls it makes on a fresh document, run by ApplyF.     *)
+(* Unlike the JSON reader it registers no namespace declarations: every name *)
+(* arrives as a QualifiedName built from the in-scope xmlns bindings, and    *)
+(* the namespaces of the document read are those its names brought along.    *)
+(* DecX(ax) = [st, exc]; the document is "~r", its bundles "~r+<i>".         *)
+(***************************************************************************)
+XRes(n, sc) ==        \* xml_qname_to_QualifiedName: [ok, q]
+  IF n.p # "" /\ n.p \in DOMAIN sc
+  THEN LET u == sc[n.p] IN
+       [ok |-> TRUE, q |-> IF u = XsdNoHash THEN QN("xsd", XsdNS, n.l)
+                           ELSE IF u = ProvNS THEN QN("prov", ProvNS, n.l) ELSE QN(n.p, u, n.l)]
+  ELSE IF n.p = "" /\ "" \in DOMAIN sc THEN [ok |-> TRUE, q |-> QN("", sc[""], n.l)]
+  ELSE [ok |-> FALSE, q |-> NoQN]
+QName(q) == NameQN(q.p, q.ns, q.l)
+(* the prefix an element of namespace u is written with: a declared prefix, else the default *)
+TagPrefix(sc, u) == IF \E p \in DOMAIN sc : p # "" /\ sc[p] = u THEN CHOOSE p \in DOMAIN sc : p # "" /\ sc[p] = u ELSE ""
+XAmbiguous(ns) == \E e1, e2 \in ns : e1[1] # e2[1] /\ e1[2] = e2[2]
+XNative == {"string", "double", "long", "int", "boolean", "dateTime", "anyURI"}
+DecXVal(kid, sc) ==        \* [ok, v: input value]
+  LET tx == kid.text
+      tok == IF tx.k = "none" THEN "e" ELSE IF tx.k \in {"tok", "iso", "num", "bool"} THEN tx.v ELSE "?"
+  IN IF kid.ref # NoneN THEN LET r == XRes(kid.ref[1], sc) IN [ok |-> r.ok, v |-> [t |-> "name", n |-> QName(r.q)]]
+     ELSE IF kid.lang # "" THEN [ok |-> TRUE, v |-> [t |-> "lang", v |-> tok, lang |-> kid.lang]]
+     ELSE IF kid.xt # NoneN THEN
+          LET d == XRes(kid.xt[1], sc) IN
+          IF ~d.ok THEN [ok |-> FALSE, v |-> [t |-> "str", v |-> "?"]]
+          ELSE IF Uri(d.q) = <<"xsd#", "QName">>
+               THEN (IF tx.k = "name" THEN LET r == XRes([p |-> tx.p, l |-> tx.l], sc) IN
+                                           [ok |-> r.ok, v |-> [t |-> "name", n |-> QName(r.q)]]
+                     ELSE [ok |-> FALSE, v |-> [t |-> "str", v |-> "?"]])
+          ELSE IF Len(Uri(d.q)) = 2 /\ Uri(d.q)[1] = "xsd#" /\ Uri(d.q)[2] \in XNative
+               THEN [ok |-> TRUE, v |-> IF Uri(d.q)[2] = "anyURI" THEN [t |-> "nlit", T |-> "anyURI", u |-> tx.u]
+                                        ELSE [t |-> "nlit", T |-> Uri(d.q)[2], v |-> tok]]
+          ELSE [ok |-> TRUE, v |-> [t |-> "lit", v |-> tok, dt |-> d.q]]
+     ELSE [ok |-> TRUE, v |-> IF tx.k = "iso" THEN [t |-> "iso", v |-> tx.v] ELSE [t |-> "str", v |-> tok]]
+(* one record element -> the new_record call and, for a subtype element, the add_asserted_type after it *)
+DecXRec(h, r, sc, idx) ==
+  LET kids == SetToSeq(r.kids)
+      attr(k) == LET u == k.tag[1] IN
+                 IF u = ProvNS THEN NameQN("prov", ProvNS, k.tag[2])
+                 ELSE NameQN(TagPrefix(sc, u), u, k.tag[2])
+      vals == [i \in 1..Len(kids) |-> DecXVal(kids[i], sc)]
+      idr  == IF r.id = NoneN THEN [ok |-> TRUE, q |-> NoQN] ELSE XRes(r.id[1], sc)
+      ok   == idr.ok /\ \A i \in 1..Len(kids) : vals[i].ok
+      new  == [op |-> "NewRec", h |-> h, k |-> XKind[r.name], via |-> "new_record",
+               id |-> IF r.id = NoneN THEN <<>> ELSE <<QName(idr.q)>>,
+               formals |-> <<>>, extras |-> [i \in 1..Len(kids) |-> <<attr(kids[i]), vals[i].v>>]]
+  IN [ok |-> ok,
+      acts |-> IF r.name \in DOMAIN XSubtype
+               THEN <<new, [op |-> "AddType", r |-> [c |-> h, i |-> idx],
+                            v |-> [t |-> "name", n |-> NameQN("prov", ProvNS, <<XSubtype[r.name]>>)]]>>
+               ELSE <<new>>]
+RECURSIVE DecXRecs(_, _, _, _, _)
+DecXRecs(ms, h, recs, sc, i) ==
+  IF i > Len(recs) THEN [st |-> ms, exc |-> "none"]
+  ELSE LET d == DecXRec(h, recs[i], sc, Len(ms.con[h].recs) + 1) IN
+       IF ~d.ok THEN [st |-> ms, exc |-> "ProvXMLException"]
+       ELSE LET r == RunX(ms, d.acts, 1) IN
+            IF r.exc # "none" THEN r ELSE DecXRecs(r.st, h, recs, sc, i + 1)
+RECURSIVE DecXBundles(_, _, _)
+DecXBundles(ms, bs, i) ==
+  IF i > Len(bs) THEN [st |-> ms, exc |-> "none"]
+  ELSE LET sc  == AXScope(bs[i].ns)
+           idr == IF bs[i].id = NoneN THEN [ok |-> FALSE, q |-> NoQN] ELSE XRes(bs[i].id[1], sc)
+       IN IF ~idr.ok THEN [st |-> ms, exc |-> "ProvException"]
+          ELSE LET r1 == ApplyF(ms, [op |-> "Bundle", h |-> RH, id |-> QName(idr.q), out |-> RBun(i)]) IN
+               IF r1.exc # "none" THEN [st |-> r1.st, exc |-> r1.exc]
+               ELSE LET r2 == DecXRecs(r1.st, RBun(i), bs[i].recs, sc, 1) IN
+                    IF r2.exc # "none" THEN r2 ELSE DecXBundles(r2.st, bs, i + 1)
+DecX(ax) ==
+  LET s0 == DoNewDoc(InitEmpty, [out |-> RH]).st
+      r1 == DecXRecs(s0, RH, ax.recs, AXScope(ax.ns), 1)
+  IN IF r1.exc # "none" THEN r1 ELSE DecXBundles(r1.st, ax.bundles, 1)
 =============================================================================
